@@ -45,10 +45,11 @@ def pick_cfg(rng):
     return compat, flags
 
 
-def valid_msg(rng, compat, flags, cls=None, method=None, txid=None, key=None, user=None, realm=None, nattr=None, fpr=None):
+def valid_msg(rng, compat, flags, cls=None, method=None, txid=None, key=None, user=None, realm=None, nattr=None, fpr=None, padbyte=0):
     cls = rng.choice([0, 0, 1, 2, 3]) if cls is None else cls
     method = rng.choice([1, 1, 3, 4, 6, 7, 8, 9, 0x115 & 0xfff, rng.randrange(0x1000)]) if method is None else method
     m = Msg(cls, method, txid or rand_txid(rng), compat, flags)
+    m.padbyte = padbyte
     n = rng.randrange(0, 5) if nattr is None else nattr
     if user is not None:
         m.add(A_USERNAME, user)
@@ -195,7 +196,9 @@ def gen_case(rng, i, kinds):
             if rng.random() < 0.5:
                 user = rng.choice([b'"', b'""', b'"""', b'"u"', b'"' * 5, b'"ab:cd"'])
         cls = rng.choice([0, 0, 0, 1])
-        m = valid_msg(rng, compat, flags, cls=cls, method=1, key=key, user=user, realm=realm, nattr=rng.randrange(0, 3))
+        quoty = realm is not None and realm.startswith(b'"')
+        m = valid_msg(rng, compat, flags, cls=cls, method=1, key=key, user=user, realm=realm, nattr=rng.randrange(0, 3),
+                      padbyte=0x22 if quoty and rng.random() < 0.6 else 0)      # padding made of quote characters after a quoted value
         b = m.raw()
         r = rng.random()
         table = [(user, key)]
